@@ -17,9 +17,9 @@ Chars7 == {k, K, Kelvin, s_, S, LongS, One}
 Strs == {<<>>} \cup {<<a>> : a \in Chars7} \cup {<<a, b>> : a \in Chars7, b \in Chars7}
 
 Singles == IF Size = 1 THEN {<<k>>, <<K, s_>>, <<Kelvin>>}
-                       ELSE {<<k>>, <<K>>, <<k, s_>>, <<K, s_>>, <<Kelvin>>, <<One>>, <<>>}
-PairPool == IF Size = 1 THEN {<<k>>, <<K, s_>>} ELSE {<<k>>, <<K, s_>>, <<Kelvin>>}
-TsPool == IF Size = 1 THEN {<<K>>, <<k, s_>>} ELSE {<<K>>, <<k, s_>>, <<LongS>>}
+                       ELSE {<<k>>, <<K>>, <<K, s_>>, <<Kelvin>>, <<>>}
+PairPool == IF Size = 1 THEN {<<k>>, <<K, s_>>} ELSE {}          \* (pairs are covered by the Size = 1 universe)
+TsPool == IF Size = 1 THEN {<<K>>, <<k, s_>>} ELSE {<<K>>, <<LongS>>}
 SerCfgs == {<<>>} \cup {<<p>> : p \in Singles}
                   \cup {pq \in {<<p, q>> : p \in PairPool, q \in PairPool} : pq[1] # pq[2]}
 TsCfgs == {<<>>} \cup {<<p>> : p \in TsPool}
